@@ -99,6 +99,37 @@ pub fn reader_main() -> ! {
                 conn = None;
                 json!({"ok": true})
             }
+            "probe" => {
+                // which of SQLite's lock bytes would a reader get a shared lock on right now?
+                // (F_GETLK asks without taking anything; this process holds no lock on these files)
+                use std::os::fd::AsRawFd;
+                let probe_file = |path: &str, bytes: &[(i64, i64, &str)]| -> Vec<String> {
+                    let mut free = vec![];
+                    if let Ok(f) = std::fs::OpenOptions::new().read(true).write(true).open(path) {
+                        for (start, len, name) in bytes {
+                            let mut fl: libc::flock = unsafe { std::mem::zeroed() };
+                            fl.l_type = libc::F_RDLCK as i16;
+                            fl.l_whence = libc::SEEK_SET as i16;
+                            fl.l_start = *start;
+                            fl.l_len = *len;
+                            let r = unsafe { libc::fcntl(f.as_raw_fd(), libc::F_GETLK, &mut fl) };
+                            if r == 0 && fl.l_type == libc::F_UNLCK as i16 {
+                                free.push(name.to_string());
+                            }
+                        }
+                    } else {
+                        free.push(format!("cannot-open:{path}"));
+                    }
+                    free
+                };
+                let db_free = probe_file(arg, &[(0x40000000, 1, "PENDING"), (0x40000002, 510, "SHARED")]);
+                let shm_free = if std::path::Path::new(&format!("{arg}-shm")).exists() {
+                    probe_file(&format!("{arg}-shm"), &[(120, 1, "WRITE"), (121, 1, "CKPT"), (122, 1, "RECOVER"), (123, 1, "READ0"), (124, 1, "READ1"), (125, 1, "READ2"), (126, 1, "READ3"), (127, 1, "READ4")])
+                } else {
+                    vec!["no-shm".to_string()]
+                };
+                json!({"ok": true, "db_free": db_free, "shm_free": shm_free})
+            }
             "quit" => break,
             _ => json!({"ok": false, "code": "BadCommand"}),
         };
@@ -289,6 +320,9 @@ struct Ctrl {
     next: usize,
     log: Vec<(String, RStep, Value)>,
     points: Vec<String>,
+    /// ask the reader process, at every point from `locked` on, which lock bytes it could share-lock
+    probe: bool,
+    probes: Vec<(String, Value)>,
 }
 
 thread_local! {
@@ -319,6 +353,10 @@ pub fn install_handler() {
             let mut g = c.borrow_mut();
             let Some(c) = g.as_mut() else { return };
             c.points.push(detail.to_string());
+            if c.probe && matches!(detail, "locked" | "journal_removed" | "before_copy" | "copied" | "shm_reset") {
+                let a = c.reader.cmd(&format!("probe {}", c.db.display()));
+                c.probes.push((detail.to_string(), a));
+            }
             run_steps_at(c, detail);
             if detail == "before_copy" && c.at.iter().any(|a| a == "mid_copy") {
                 // what a half-finished sequential copy leaves: the first half of the new image over
@@ -359,7 +397,7 @@ pub fn run_case_b(t: &Templates, case: &CaseB, reader: Reader, scratch: &Path) -
     let prog = program(case.two_txns);
     assert_eq!(prog.len(), case.at.len());
     CTRL.with(|c| {
-        *c.borrow_mut() = Some(Ctrl { reader, db: db.clone(), src: src.clone(), prog, at: case.at.clone(), next: 0, log: vec![], points: vec![] });
+        *c.borrow_mut() = Some(Ctrl { reader, db: db.clone(), src: src.clone(), prog, at: case.at.clone(), next: 0, log: vec![], points: vec![], probe: case.at.iter().all(|a| a == "end"), probes: vec![] });
     });
     CTRL.with(|c| run_steps_at(c.borrow_mut().as_mut().unwrap(), "start"));
     let res = klukai_types::sqlite3_restore::restore(&src, &db, Duration::from_millis(15));
@@ -399,6 +437,24 @@ pub fn run_case_b(t: &Templates, case: &CaseB, reader: Reader, scratch: &Path) -
             } else {
                 out.refused += 1;
             }
+        }
+    }
+    // while the restore writes (from the end of lock_all to its return) no other process may be able
+    // to take a lock that permits reading pages: the shared range of the database file in rollback
+    // mode, any read mark of the wal-index in WAL mode
+    for (point, a) in &ctrl.probes {
+        let list = |k: &str| -> Vec<String> { a[k].as_array().map(|v| v.iter().filter_map(|x| x.as_str().map(|s| s.to_string())).collect()).unwrap_or_default() };
+        let db_free = list("db_free");
+        let shm_free = list("shm_free");
+        let wal = case.mode != DstMode::Rollback;
+        let open_door: Vec<String> = if wal {
+            shm_free.iter().filter(|b| b.starts_with("READ") || *b == "WRITE" || *b == "CKPT" || *b == "RECOVER" || *b == "no-shm" || b.starts_with("cannot-open")).cloned().collect()
+        } else {
+            db_free.iter().filter(|b| *b == "SHARED" || b.starts_with("cannot-open")).cloned().collect()
+        };
+        if !open_door.is_empty() {
+            out.violations.push(("C19:reader-could-lock-pages-while-restore-writes".into(), json!({"at": point, "mode": case.mode, "lockable": open_door})));
+            break;
         }
     }
     match &res {
@@ -466,8 +522,11 @@ pub fn part_b(rep: &Report, tier: Tier, deadline: Instant) -> Value {
         for (mode, _) in &t.dst {
             let case = CaseB { mode: *mode, size: NewSize::Larger, two_txns: false, at: vec!["end".into(); 4] };
             let (out, _rd) = run_case_b(&t, &case, Reader::spawn(), s.path());
-            if !out.restore_ok || !out.violations.is_empty() {
-                rep.violation("C19:restore-without-any-reader-fails", json!({"mode": mode, "violations": out.violations.iter().map(|v| &v.0).collect::<Vec<_>>()}));
+            if !out.restore_ok {
+                rep.violation("C19:restore-without-any-reader-fails", json!({"part": "B", "case": case}));
+            }
+            for (k, d) in &out.violations {
+                rep.violation(k, json!({"part": "B", "case": case, "d": d}));
             }
             let mut pts: Vec<String> = vec!["start".into()];
             for p in &out.points {
